@@ -264,7 +264,7 @@ func (ty *ObjectType) String() string {
 		} else {
 			b.WriteString("; ")
 		}
-		b.WriteString(p)
+		b.WriteString(singleLine(p)) // Property name may come from a JSON or YAML key. Keep the type in a single line
 		b.WriteString(": ")
 		b.WriteString(ty.Props[p].String())
 	}
